@@ -27,7 +27,12 @@
                       State.Finished is set when the loop ends.  For R > 1 a later root of the same
                       message has then used up its quorum edge (named deviation, see C05 finding).
    Algo = "perroot" : every root is handled on its own; Finished when every root was submitted.
-   For R = 1 both coincide.                                                                          *)
+   For R = 1 both coincide.
+
+   Bound to the code in both directions: TLC behaviours are replayed on the real runners (harness/cmd/partialsig
+   -mode replay), and executions recorded from the real runners are validated by PartialSigTrace (-mode record).
+   act.err is the error class the call returns: "refused" (Validate*ConsensusMsg), "invalid" (quorum reached
+   but a reconstructed signature did not verify: fallback, nothing submitted by this call after that), "none". *)
 EXTENDS Integers, Sequences, FiniteSets, TLC
 
 CONSTANTS N,           \* committee size 3f+1
@@ -58,7 +63,14 @@ Roots == 1..R
 Senders == IF Foreign THEN 1..(N + 1) ELSE Signers
 IdOrder == [k \in Roots |-> k]
 Kinds == {"good", "bad"}
-Classes == {"ok", "wrongRoot", "wrongSlot", "badCount"}
+(* message classes.  Everything but "ok" is refused as a whole by Validate{Post,Pre}ConsensusMsg:
+     wrongRoot      one of the signing roots is not an expected one            (verifyExpectedRoot)
+     wrongSlot      Message.Slot is not the duty's slot                        (validatePartialSigMsgForSlot)
+     badCount       more or fewer partial signatures than expected roots       (verifyExpectedRoot)
+     signerMismatch a partial signature names another signer than the envelope (SignedPartialSignatureMessage.Validate)
+     dupRoot        right count, one expected root twice and another missing   (verifyExpectedRoot, R >= 2 only)
+     foreign        the envelope's signer is no committee member (sender N+1)  (validatePartialSigMsgForSlot)        *)
+Classes == {"ok", "wrongRoot", "wrongSlot", "badCount", "signerMismatch"} \cup (IF R >= 2 THEN {"dupRoot"} ELSE {})
 AllGoodKinds == [r \in Roots |-> "good"]
 AllBadKinds == [r \in Roots |-> "bad"]
 W(g) == g \in Weaken
@@ -90,24 +102,25 @@ Store(h, s, kinds, ord, k, edges) ==
 
 Inc(x) == IF x >= 2 THEN 2 ELSE x + 1
 
-(* the role loop; result <<have, sub, finished, invalidSub>> *)
+(* the role loop; result <<have, sub, finished, invalidSub, some root did not reconstruct (the call returns
+   "got ... quorum but it has invalid signatures")>> *)
 RECURSIVE LoopCode(_, _, _, _, _)
 LoopCode(h, sb, inv, edges, k) ==
-    IF k > Len(edges) THEN <<h, sb, TRUE, inv>>
+    IF k > Len(edges) THEN <<h, sb, TRUE, inv, FALSE>>
     ELSE LET r == edges[k] IN
          IF Valid(h, r) THEN LoopCode(h, [sb EXCEPT ![r] = Inc(@)], inv \/ ~AllGood(h, r), edges, k + 1)
-         ELSE <<Evict(h, SetOf(edges)), sb, FALSE, inv>>
+         ELSE <<Evict(h, SetOf(edges)), sb, FALSE, inv, TRUE>>
 
-RECURSIVE LoopPerRoot(_, _, _, _, _)
-LoopPerRoot(h, sb, inv, edges, k) ==
-    IF k > Len(edges) THEN <<h, sb, \A r \in Roots : sb[r] >= 1, inv>>
+RECURSIVE LoopPerRoot(_, _, _, _, _, _)
+LoopPerRoot(h, sb, inv, edges, k, ev) ==
+    IF k > Len(edges) THEN <<h, sb, \A r \in Roots : sb[r] >= 1, inv, ev>>
     ELSE LET r == edges[k] IN
          IF Valid(h, r)
          THEN LoopPerRoot(h, IF sb[r] = 0 \/ W("edgeEveryTime") THEN [sb EXCEPT ![r] = Inc(@)] ELSE sb,
-                          inv \/ ~AllGood(h, r), edges, k + 1)
-         ELSE LoopPerRoot(Evict(h, {r}), sb, inv, edges, k + 1)
+                          inv \/ ~AllGood(h, r), edges, k + 1, ev)
+         ELSE LoopPerRoot(Evict(h, {r}), sb, inv, edges, k + 1, TRUE)
 
-Loop(h, sb, inv, edges) == IF Algo = "code" THEN LoopCode(h, sb, inv, edges, 1) ELSE LoopPerRoot(h, sb, inv, edges, 1)
+Loop(h, sb, inv, edges) == IF Algo = "code" THEN LoopCode(h, sb, inv, edges, 1) ELSE LoopPerRoot(h, sb, inv, edges, 1, FALSE)
 
 ----------------------------------------------------------------------------
 Init == /\ faulty \in FaultySets
@@ -135,11 +148,13 @@ Recv(s, m) ==
     /\ UNCHANGED faulty
     /\ IF (finished /\ ~W("noFinished")) \/ m.cls # "ok"
        THEN /\ UNCHANGED <<have, sub, invalidSub, finished>>                  \* whole message refused
-            /\ act' = [name |-> "Recv", s |-> s, kinds |-> m.kinds, ord |-> m.ord, cls |-> m.cls, refused |-> TRUE, edges |-> <<>>]
+            /\ act' = [name |-> "Recv", s |-> s, kinds |-> m.kinds, ord |-> m.ord, cls |-> m.cls, refused |-> TRUE, edges |-> <<>>,
+                        err |-> "refused"]
        ELSE LET st == Store(have, s, m.kinds, m.ord, 1, <<>>)
-                lp == IF st[2] = <<>> THEN <<st[1], sub, finished, invalidSub>> ELSE Loop(st[1], sub, invalidSub, st[2])
+                lp == IF st[2] = <<>> THEN <<st[1], sub, finished, invalidSub, FALSE>> ELSE Loop(st[1], sub, invalidSub, st[2])
             IN /\ have' = lp[1] /\ sub' = lp[2] /\ finished' = (finished \/ lp[3]) /\ invalidSub' = lp[4]
-               /\ act' = [name |-> "Recv", s |-> s, kinds |-> m.kinds, ord |-> m.ord, cls |-> m.cls, refused |-> FALSE, edges |-> st[2]]
+               /\ act' = [name |-> "Recv", s |-> s, kinds |-> m.kinds, ord |-> m.ord, cls |-> m.cls, refused |-> FALSE, edges |-> st[2],
+                           err |-> IF lp[5] THEN "invalid" ELSE "none"]   \* the error class ProcessPostConsensus returns
 
 Next == \E s \in Senders : \E m \in Msgs(s) : Recv(s, m)
 Spec == Init /\ [][Next]_vars
